@@ -17,7 +17,7 @@ import (
 
 var c05Weights = []weighted{{"claim", 10}, {"advance", 9}, {"propose", 7}, {"delete", 6}, {"deposit", 4}, {"create", 3}, {"role", 2}}
 
-var c05Periods = []time.Duration{time.Second, 999 * time.Millisecond, time.Nanosecond, time.Second + time.Nanosecond, 90 * time.Second,
+var c05Periods = []time.Duration{time.Second, 999 * time.Millisecond, time.Nanosecond, time.Second + time.Nanosecond, 90 * time.Second, 1900 * time.Millisecond, 2500 * time.Millisecond,
 	7 * 24 * time.Hour, 1 << 62, 1<<63 - 1}
 
 type c05Final struct {
